@@ -8,6 +8,7 @@ use allsorts::tables::{Fixed, FontTableProvider};
 use allsorts::{tag, Font};
 use mcx::{guard, Ctx, H};
 use otmodel::read;
+use rayon::prelude::*;
 use serde_json::json;
 
 fn class_of(pr: &str) -> String {
@@ -150,6 +151,37 @@ pub fn extra(ctx: &Ctx) {
         }
         ctx.add_states(total as u64);
         ctx.add_transitions(total as u64);
+    }
+    // instances of synthetic variable fonts (the model fonts of C12: composites whose offsets vary, several contours,
+    // 300-point glyphs, HVAR/MVAR): the instancer rewrites glyf/loca/hmtx/head/maxp and every output must be a valid font
+    {
+        let corpus = crate::c12::corpus_for_c09(ctx.tier.thorough());
+        let n: u64 = corpus
+            .par_iter()
+            .map(|(desc, bytes, users)| {
+                let mut n = 0u64;
+                let Ok(fd) = ReadScope::new(bytes).read::<FontData<'_>>() else { return 0 };
+                let Ok(p) = fd.table_provider(0) else { return 0 };
+                for (k, user) in users.iter().enumerate() {
+                    let fixed: Vec<Fixed> = user.iter().map(|u| Fixed::from_raw(*u)).collect();
+                    let what = || json!({"font": desc, "operation": "instance", "user_tuple_16.16": user, "replay": "re-run ./run C09 (the font is regenerated from the index vector)"});
+                    n += 1;
+                    match guard(|| allsorts::variations::instance(&p, &fixed)) {
+                        Err(pn) => ctx.violation(&format!("C09:panic:{}", pn.site_key("/repo")), || json!({"case": what(), "panic": pn.msg})),
+                        Ok(Err(_)) => {}
+                        Ok(Ok((out, _))) => {
+                            validate_and_load(ctx, "instance-of-model-font", &what, &out, true);
+                            ctx.mark_nontrivial(H::new().str(desc).u64(k as u64).get());
+                        }
+                    }
+                }
+                n
+            })
+            .sum();
+        ctx.evals(n);
+        ctx.add_states(n + corpus.len() as u64);
+        ctx.add_transitions(n);
+        ctx.set("instances_of_c12_model_fonts", json!({"fonts": corpus.len(), "instances": n}));
     }
     // fonts rebuilt from WOFF2-reconstructed tables: consistency of the reconstructed maxp/hhea/hmtx/head/loca/glyf
     for f in ["fonts/woff2/test-font.woff2", "fonts/woff2/SFNT-TTF-Composite.woff2", "fonts/woff2/roundtrip-hmtx-lsb-001.woff2", "fonts/woff2/roundtrip-offset-tables-001.woff2", "fonts/woff2/test_glyf_loca_null_transforms.woff2", "fonts/woff2/TestSVGgzip.woff2"] {
